@@ -197,12 +197,15 @@ def run_retro(ctx, focus):
     if len(tlc_inputs) > (90 if ctx.quick else 2500):
         tlc_inputs = rnd.sample(tlc_inputs, 90 if ctx.quick else 2500)
     cases = make_cases(ctx, rnd, tlc_inputs)
+    n_plain = len(cases)
     cases += smooth_cases(ctx, rnd, focus)
     seeds = 2 if ctx.quick else 12
     traces, not_returned, returned_by_op = [], {}, {}
-    for op, rs, params in cases:
+    for ci, (op, rs, params) in enumerate(cases):
         for k in range(seeds if op not in ("combofilter", "optimal") else 1):
             t, err = call(op, rs, params, ctx.seed * 1000 + k)
+            if t is not None:
+                t["gen"] = ci >= n_plain
             ctx.evaluations += 1
             if t is None:
                 not_returned[op] = not_returned.get(op, 0) + 1
@@ -244,6 +247,33 @@ def run_retro(ctx, focus):
         elif shown < 4:
             ctx.violation(what, {"kind": "retro", "trace": t, "clause": clause})
             shown += 1
+    if focus == "C13":
+        # conformance of the generative transcriptions (Smooth.tla) with the real smoothers: not a verdict, a drift note
+        gen = [t for t in traces if t.get("gen") or t["op"] in ("fixed", "optimal", "mergemin", "mergetb", "combofilter")]
+        gen = [t for t in gen if all(not r["obs"] for r in t["inp"])]
+        before = ctx.traces
+        drift = validate(ctx, "TraceSmooth", gen, decide="Decide", next_="TNext", init="TInit", chunk=3000, note="generative transcriptions vs real smoothers",
+                         constants={"NRows": 1, "Samples": {1}, "MaxParam": 1, "BugSeg": False, "BugNPL": False, "Export": False, "MaxPlates": 1, "MaxSize": 1,
+                                    "SmOps": {"fixed"}, "Arity": 1, "NTreat": 1, "BugOpt": False})
+        cand = [t for i, t in enumerate(gen) if t["op"] in ("fixed", "optimal") and len(t["out"]) >= 2 and i not in {d[0] for d in drift}]
+        if cand:
+            from harness.tracecheck import selftest
+
+            def corrupt2(t):
+                t["out"] = t["out"][1:]
+                return "one kept experiment removed from a size smoother's logged output"
+            selftest(ctx, "TraceSmooth", cand[0], corrupt2, decide="Decide", next_="TNext", init="TInit",
+                     constants={"NRows": 1, "Samples": {1}, "MaxParam": 1, "BugSeg": False, "BugNPL": False, "Export": False, "MaxPlates": 1, "MaxSize": 1,
+                                "SmOps": {"fixed"}, "Arity": 1, "NTreat": 1, "BugOpt": False})
+        ctx.traces = before
+        rejected_by_verdict = {id(traces[i]) for i, _ in bad}
+        only = [(i, c) for i, c in drift if id(gen[i]) not in rejected_by_verdict]
+        ctx.extra["model_drift"] = len(only)
+        ctx.extra["conformance_traces_smooth"] = len(gen)
+        if only:
+            i, c = only[0]
+            print("NOTE model-drift property=C13: %d real smoother call(s) satisfy the clauses of C13 but are not outcomes of the generative transcription in "
+                  "Smooth.tla (first: %s%s at '%s'); the transcription needs updating" % (len(only), gen[i]["op"], (gen[i]["p1"],), c))
     ctx.extra["calls_returned"] = returned_by_op
     ctx.extra["calls_not_returned"] = not_returned
     ctx.sample({"op": traces[0]["op"], "params": [traces[0]["p1"]], "inp": traces[0]["inp"], "out": traces[0]["out"]})
